@@ -85,6 +85,9 @@ structure St where
 /-- what the harness's hooks log while an operation runs, in order -/
 inductive Ev where
   | body (b act : Nat)                       -- `_flush` of batch b starts; `act` = the active batch at that moment
+  | bodyEnd (b : Nat) (r : Option Err) (done : Option Outc)
+                                             -- `_flush` of batch b (harness subclass) is left: r = what it raised (none = it
+                                             -- returned); done = the batch's own outcome peeked at that moment (none = pending)
   | item (i : Nat) (o : Outc) (byBody : Bool)  -- on_computed of item i (outcome peeked); byBody = set by harness code
                                              -- (a script statement or a sibling's `link` callback), not by the library
   | created (i b : Nat) (src : Option Nat)   -- item i constructed on batch b; src = batch whose flush/completion issued it
@@ -322,7 +325,7 @@ def compute (scripts : List Script) (s : St) (b : Nat) : St × List Ev :=
     | .user =>
       let s2 := s1.incRuns b
       let (s3, e1, r) := runScript b (scripts.getD b []) s2
-      (s3, Ev.body b s1.active :: e1, r)
+      (s3, Ev.body b s1.active :: (e1 ++ [Ev.bodyEnd b r (s3.bout b)]), r)
     | .debug => debugFlush (s1.bitems b) s1
   if (s3.bout b).isSome then (s3, e1)
   else
@@ -428,15 +431,17 @@ def finalState (scripts : List Script) (s : St) : List Op → St
 
 /-! ## The property C11 as an observer over a history of observations
 
-`pre` is the snapshot before the operation (the `post` of the previous observation, `init` at the start);
-nothing of the model's code above is used below - only the accessors of a snapshot. -/
+`pre` is the snapshot before the operation (the `post` of the previous observation, `init` at the start).
+Nothing of the model's *library* code above is used below: only the accessors of a snapshot, the event log, the
+reading conventions `readValue` / `readError` / `errOfCancel` / `bodyOutc`, and - for a successful `add` - the
+primitive `pushItem` ("the snapshot before, plus one pending item at the end of that batch's list"). -/
 
 def St.ibatch (s : St) (i : Nat) : Nat := match s.items[i]? with | some it => it.batch | none => 0
 def St.ispawn (s : St) (i : Nat) : Option Nat := match s.items[i]? with | some it => it.spawn | none => none
 def St.ilink (s : St) (i : Nat) : Option Link := match s.items[i]? with | some it => it.link | none => none
 
 /-- shape of a snapshot between two operations: the active batch exists and is pending; an item belongs to an
-    existing batch, is listed in `batch.items` while that batch is pending, is complete iff its batch is finished
+    existing batch, is listed in `batch.items` while that batch is pending, is complete if its batch is finished
     (**no item left pending**); a flush body ran at most once, and never for a pending batch -/
 def Good (s : St) : Prop :=
   s.active < s.batches.length ∧ s.bout s.active = none ∧
@@ -450,10 +455,11 @@ def Good (s : St) : Prop :=
 
 instance (s : St) : Decidable (Good s) := by unfold Good; infer_instance
 
-/-- frame of every operation (**single assignment**): batches and items are only added; a finished batch and a
-    completed item keep their outcome for ever; an item never changes its batch; run counters only grow -/
+/-- frame of every operation (**single assignment**): kind and configuration stay; batches and items are only
+    added; a finished batch and a completed item keep their outcome for ever; an item never changes its batch;
+    run counters only grow -/
 def Ext (s t : St) : Prop :=
-  s.kind = t.kind ∧ s.batches.length ≤ t.batches.length ∧ s.items.length ≤ t.items.length ∧
+  (s.kind = t.kind ∧ s.keep = t.keep) ∧ s.batches.length ≤ t.batches.length ∧ s.items.length ≤ t.items.length ∧
   (∀ b, b < s.batches.length → ((s.bout b).isSome → t.bout b = s.bout b) ∧ s.runs b ≤ t.runs b) ∧
   (∀ i, i < s.items.length →
       t.ibatch i = s.ibatch i ∧ t.payload i = s.payload i ∧ t.ispawn i = s.ispawn i ∧
@@ -461,23 +467,18 @@ def Ext (s t : St) : Prop :=
 
 instance (s t : St) : Decidable (Ext s t) := by unfold Ext; infer_instance
 
-/-- the outcome an item may get from `BatchBase._computed` / `DebugBatch._flush` (not from a script statement):
-    the batch's error, else "not set" (user subclass) resp. its `_result` (DebugBatch) -/
-def itemRule (k : Kind) (o : Outc) (bo : Option Outc) (payload : Nat) : Bool :=
-  match k with
-  | .user =>
-    match bo with
-    | some (.err e) => o == .err e
-    | some (.val _) => o == .err .notSet
-    | none => false
-  | .debug =>
-    o == .val payload ||
-    (match bo with
-     | some (.err e) => o == .err e
-     | _ => false)
+/-- the outcome an item may get from the library (`BatchBase._computed` / `DebugBatch._flush`), i.e. not from a
+    script statement or a handler: the batch's error; else (user subclass, batch flushed) "not set"; `br` = the
+    operation is one that runs the flush body: only then a DebugBatch item may get its `_result` -/
+def itemRule (k : Kind) (br : Bool) (o : Outc) (bo : Option Outc) (payload : Nat) : Bool :=
+  (match bo with
+   | some (.err e) => o == .err e
+   | some (.val _) => k == .user && o == .err .notSet
+   | none => false) ||
+  (k == .debug && br && o == .val payload)
 
 /-- one logged event against the snapshots before and after the operation; `some clause` = violated -/
-def evClause (pre post : St) (ev : Ev) : Option String :=
+def evClause (br : Bool) (pre post : St) (ev : Ev) : Option String :=
   match ev with
   | .body b act =>
     if act = b then some "active-during-flush"            -- the batch is still the active one while its body runs
@@ -485,6 +486,7 @@ def evClause (pre post : St) (ev : Ev) : Option String :=
     else if (pre.bout b).isSome then some "once"          -- flush body of a finished batch
     else if pre.runs b ≠ 0 then some "once"
     else none
+  | .bodyEnd _ _ _ => none                                -- judged by `fateClause` (what the batch's outcome must be)
   | .announce b pend act =>
     if pend ≠ [] then some "items-before-announce"        -- an item of the batch is pending when the batch is announced
     else if act = b then some "active-at-announce"
@@ -502,12 +504,133 @@ def evClause (pre post : St) (ev : Ev) : Option String :=
   | .item i o byBody =>
     if post.iout i ≠ some o then some "item-outcome"
     else if (pre.iout i).isSome then some "item-once"
-    else if !byBody && !itemRule post.kind o (post.bout (post.ibatch i)) (post.payload i) then some "leftover-outcome"
+    else if !byBody && !itemRule post.kind br o (post.bout (post.ibatch i)) (post.payload i) then some "leftover-outcome"
     else none
 
 def Ev.isAnnounce : Ev → Bool
   | .announce _ _ _ => true
   | _ => false
+
+/-- the events that code running while a batch is being finished may log: item completions and item creations -/
+def Ev.isPlain : Ev → Bool
+  | .item _ _ _ => true
+  | .created _ _ _ => true
+  | _ => false
+
+def Ev.isCreated : Ev → Bool
+  | .created _ _ _ => true
+  | _ => false
+
+def Ev.isBody : Ev → Bool
+  | .body _ _ => true
+  | _ => false
+
+def Ev.isBodyEv : Ev → Bool
+  | .body _ _ => true
+  | .bodyEnd _ _ _ => true
+  | _ => false
+
+def Ev.bodyEnd? : Ev → Option (Nat × Option Err × Option Outc)
+  | .bodyEnd b r d => some (b, r, d)
+  | _ => none
+
+def itemCount (evs : List Ev) (i : Nat) : Nat := evs.countP fun | .item j _ _ => j == i | _ => false
+def createdCount (evs : List Ev) (i : Nat) : Nat := evs.countP fun | .created j _ _ => j == i | _ => false
+def announceCount (evs : List Ev) (b : Nat) : Nat := evs.countP fun | .announce c _ _ => c == b | _ => false
+
+/-- **every change is logged exactly once, and nothing else is**: an item that went from pending to complete during
+    the operation has exactly one completion event (on_computed fired once), every other item none; an item that
+    is new has exactly one creation event, an old one none; a batch that went from pending to finished has been
+    announced exactly once, every other batch not at all -/
+def CountsOk (pre post : St) (evs : List Ev) : Prop :=
+  (∀ i, i < post.items.length →
+      itemCount evs i = (if pre.iout i = none ∧ (post.iout i).isSome then 1 else 0) ∧
+      createdCount evs i = (if pre.items.length ≤ i then 1 else 0)) ∧
+  (∀ b, b < post.batches.length →
+      announceCount evs b = (if pre.bout b = none ∧ (post.bout b).isSome then 1 else 0))
+
+instance (pre post : St) (evs : List Ev) : Decidable (CountsOk pre post evs) := by unfold CountsOk; infer_instance
+
+/-- after the announcement of batch b no item of b is completed any more -/
+def afterAnnounceOk (post : St) (evs : List Ev) : Bool :=
+  match evs.dropWhile (fun ev => !ev.isAnnounce) with
+  | .announce b _ _ :: rest => rest.all fun | .item i _ _ => post.ibatch i != b | _ => true
+  | _ => true
+
+/-- what the operation has to do to which batch, decided from the snapshot before it alone -/
+inductive Fate where
+  | quiet                           -- no batch is finished by this operation
+  | flushed (b : Nat) (clear : Bool)  -- pending batch b must be flushed: its body runs once and decides the outcome;
+                                    -- clear = through `flush()`, which empties `items` unless KEEP_DEPENDENCIES
+  | cancelled (b : Nat) (e : Err)   -- pending batch b must be cancelled with e, its body must not run
+  deriving Repr, DecidableEq, Inhabited
+
+def St.pendingBatch (s : St) (b : Nat) : Prop := b < s.batches.length ∧ s.bout b = none
+instance (s : St) (b : Nat) : Decidable (s.pendingBatch b) := by unfold St.pendingBatch; infer_instance
+
+def fate (pre : St) : Op → Fate
+  | .flush b => if pre.pendingBatch b then .flushed b true else .quiet
+  | .cancel b e => if pre.pendingBatch b then .cancelled b (errOfCancel e) else .quiet
+  | .itemValue i =>
+    if i < pre.items.length ∧ pre.iout i = none ∧ pre.pendingBatch (pre.ibatch i) then .flushed (pre.ibatch i) true
+    else .quiet
+  | .batchValue b => if pre.pendingBatch b then .flushed b false else .quiet
+  | .batchError b => if pre.pendingBatch b then .flushed b false else .quiet
+  | _ => .quiet
+
+def Fate.bodyRuns : Fate → Bool
+  | .flushed _ _ => true
+  | _ => false
+
+/-- **fresh batch**: the operation finishes batch b (`fin = some b`) and b held the active slot: exactly one new
+    batch exists afterwards and it holds the slot; in every other case no batch is created and the slot is kept -/
+def slotOk (pre post : St) (fin : Option Nat) : Bool :=
+  if fin = some pre.active then post.batches.length == pre.batches.length + 1 && post.active == pre.batches.length
+  else post.batches.length == pre.batches.length && post.active == pre.active
+
+/-- a list of named checks: the name of the first one that fails -/
+def firstFail : List (Bool × String) → Option String
+  | [] => none
+  | (ok, name) :: rest => if ok then firstFail rest else some name
+
+/-- the checks on the flush body of batch b: it ran exactly once, first of all, and what it did decides the batch's
+    outcome (user subclass: the harness logs what its `_flush` raised; DebugBatch: the body cannot be hooked, it
+    either returns or raises FutureIsAlreadyComputed) -/
+def bodyChecks (rx : Bool) (pre : St) (b : Nat) (post : St) (evs : List Ev) : List (Bool × String) :=
+  match pre.kind with
+  | .user =>
+    [ (post.runs b == 1, "flush-runs-body-once"),
+      (evs.head? == some (.body b post.active), "flush-runs-body-once"),
+      ((evs.filter Ev.isBody).length == 1, "flush-runs-body-once"),
+      (match evs.filterMap Ev.bodyEnd? with
+       | [(b', r, done)] => b' == b && (rx || done.isNone) && post.bout b == some (done.getD (bodyOutc r))
+       | _ => false, "flush-outcome") ]
+  | .debug =>
+    [ (!evs.any Ev.isBodyEv, "debug-body-events"),
+      (rx || post.bout b == some (.val 0) || post.bout b == some (.err .already), "flush-outcome") ]
+
+/-- the effect the operation must have on the batch it is about (`rx` = the observation comes from the family
+    `reenter`, where the batch may get cancelled from inside its own flush: then the outcome found at the end of the
+    body stands, and the outcome of a DebugBatch - whose body cannot be hooked - is not judged here) -/
+def fateChecks (rx : Bool) (pre : St) (ob : Obs) : List (Bool × String) :=
+  let post := ob.post
+  match fate pre ob.op with
+  | .quiet =>
+    [ (ob.evs.all Ev.isCreated, "quiet-op-events"),
+      (slotOk pre post none, "fresh-batch") ]
+  | .cancelled b e =>
+    [ (post.bout b == some (.err e), "cancel-outcome"),
+      (post.runs b == 0, "cancel-runs-no-body"),
+      (!ob.evs.any Ev.isBodyEv, "cancel-runs-no-body"),
+      (slotOk pre post (some b), "fresh-batch"),
+      (post.bitems b == pre.bitems b, "cancel-keeps-items") ]
+  | .flushed b clear =>
+    [ ((post.bout b).isSome, "flush-finishes"),
+      (slotOk pre post (some b), "fresh-batch"),
+      (post.bitems b == (if clear && !pre.keep then [] else pre.bitems b), "keep-dependencies") ] ++
+    bodyChecks rx pre b post ob.evs
+
+def fateClause (rx : Bool) (pre : St) (ob : Obs) : Option String := firstFail (fateChecks rx pre ob)
 
 /-- the result / effect of the operation itself -/
 def opClause (pre : St) (ob : Obs) : Option String :=
@@ -517,8 +640,8 @@ def opClause (pre : St) (ob : Obs) : Option String :=
   | .add p spawn link =>
     let i := pre.items.length
     if ob.res ≠ .created i then some "add-result"
-    else if post.items[i]? ≠ some { batch := pre.active, payload := p, spawn := spawn, link := link, out := none } then some "add-joins-active"
-    else if post.active ≠ pre.active then some "add-joins-active"
+    else if post ≠ pre.pushItem pre.active p spawn link then some "add-joins-active"
+    else if ob.evs ≠ [.created i pre.active none] then some "add-events"
     else none
   | .addTo b p =>
     if pre.batches.length ≤ b then (if ob.res = .invalid ∧ noop then none else some "invalid")
@@ -528,7 +651,8 @@ def opClause (pre : St) (ob : Obs) : Option String :=
     else
       let i := pre.items.length
       if ob.res ≠ .created i then some "add-result"
-      else if post.items[i]? ≠ some { batch := b, payload := p, spawn := none, link := none, out := none } then some "add-result"
+      else if post ≠ pre.pushItem b p none none then some "add-result"
+      else if ob.evs ≠ [.created i b none] then some "add-events"
       else none
   | .flush b =>
     if pre.batches.length ≤ b then (if ob.res = .invalid ∧ noop then none else some "invalid")
@@ -537,15 +661,11 @@ def opClause (pre : St) (ob : Obs) : Option String :=
        else if !noop then some "second-flush-noop" else none)
     else
       if ob.res ≠ .unit then some "flush-total"
-      else if (post.bout b).isNone then some "flush-finishes"
-      else if pre.kind = .user ∧ post.runs b ≠ 1 then some "flush-runs-body-once"
       else none
-  | .cancel b e =>
+  | .cancel b _ =>
     if pre.batches.length ≤ b then (if ob.res = .invalid ∧ noop then none else some "invalid")
     else if ob.res ≠ .unit then some "cancel-total"
     else if (pre.bout b).isSome then (if !noop then some "cancel-noop" else none)
-    else if post.bout b ≠ some (.err (errOfCancel e)) then some "cancel-outcome"
-    else if post.runs b ≠ 0 then some "cancel-runs-no-body"
     else none
   | .itemValue i =>
     if pre.items.length ≤ i then (if ob.res = .invalid ∧ noop then none else some "invalid")
@@ -580,30 +700,35 @@ def opClause (pre : St) (ob : Obs) : Option String :=
     else if ob.res = .bool (pre.iout i).isSome ∧ noop then none else some "query"
 
 /-- one observation against the snapshot before it; `some clause` = C11 is violated there -/
-def specStep (pre : St) (ob : Obs) : Option String :=
+def specStep (rx : Bool) (pre : St) (ob : Obs) : Option String :=
   match opClause pre ob with
   | some c => some c
   | none =>
-    match ob.evs.findSome? (evClause pre ob.post) with
+    match ob.evs.findSome? (evClause (fate pre ob.op).bodyRuns pre ob.post) with
     | some c => some c
     | none =>
-      if (ob.evs.filter Ev.isAnnounce).length > 1 then some "announce-once"
-      else if ¬ Ext pre ob.post then some "single-assignment"
-      else if ¬ Good ob.post then some "no-item-left-pending"
-      else none
+      match fateClause rx pre ob with
+      | some c => some c
+      | none =>
+        if (ob.evs.filter Ev.isAnnounce).length > 1 then some "announce-once"
+        else if !afterAnnounceOk ob.post ob.evs then some "items-before-announce"
+        else if ¬ CountsOk pre ob.post ob.evs then some "every-change-logged-once"
+        else if ¬ Ext pre ob.post then some "single-assignment"
+        else if ¬ Good ob.post then some "no-item-left-pending"
+        else none
 
-def watchRun (pre : St) : List Obs → Option String
+def watchRun (rx : Bool) (pre : St) : List Obs → Option String
   | [] => none
   | ob :: obs =>
-    match specStep pre ob with
+    match specStep rx pre ob with
     | some c => some (c ++ "@" ++ ob.op.name)
-    | none => watchRun ob.post obs
+    | none => watchRun rx ob.post obs
 
 /-- `Spec.C11`: the whole history is accepted -/
-def spec (k : Kind) (obs : List Obs) (keep : Bool := false) : Bool := (watchRun (init k keep) obs).isNone
+def spec (k : Kind) (obs : List Obs) (keep : Bool := false) : Bool := (watchRun false (init k keep) obs).isNone
 
-def specClause (k : Kind) (obs : List Obs) (keep : Bool := false) : String :=
-  match watchRun (init k keep) obs with
+def specClause (k : Kind) (obs : List Obs) (keep : Bool := false) (rx : Bool := false) : String :=
+  match watchRun rx (init k keep) obs with
   | none => "ok"
   | some c => c
 
